@@ -273,4 +273,11 @@ def main(path):
 
 if __name__ == "__main__":
     sys.path.insert(0, os.path.dirname(os.path.dirname(os.path.abspath(__file__))))
-    sys.exit(main(sys.argv[1]))
+    try:
+        code = main(sys.argv[1])
+    except Exception:
+        import traceback
+        traceback.print_exc()
+        print("RESULT: replay crashed (not a reproduction)")
+        code = 3
+    sys.exit(code)
